@@ -206,7 +206,7 @@ def run_check(prop, tier, seed):
     by_id = {s["id"]: s for s in scs}
     log("[gen] %d scenarios in family %s" % (len(scs), cfg["family"]))
     # 3. executions of the real code
-    files = run_passes(prop, scs, cfg["passes"][tier], seed, wdir)
+    files = run_passes(prop, [s_ for s_ in scs if not s_.get("d2only")], cfg["passes"][tier], seed, wdir)
     ex, order = vlib.load_executions(files)
     reps, mult = vlib.dedup(ex, order)
     log("[run] %d executions, %d distinct traces" % (len(order), len(reps)))
@@ -260,7 +260,10 @@ def run_check(prop, tier, seed):
     if cfg.get("d2"):
         nsc, nruns = cfg["d2"][tier]
         rng = random.Random("%s/d2/%d" % (prop, seed))
-        sub = [dict(s_) for s_ in (scs if len(scs) <= nsc else rng.sample(scs, nsc)) if not s_.get("d1only")]
+        # scenarios that only make sense on real sockets always run there; the rest is sampled
+        only2 = [s_ for s_ in scs if s_.get("d2only")]
+        rest = [s_ for s_ in scs if not s_.get("d2only")]
+        sub = [dict(s_) for s_ in only2 + (rest if len(rest) <= nsc else rng.sample(rest, nsc)) if not s_.get("d1only")]
         sub = [dict(s_) for s_ in (scs if len(scs) <= nsc else rng.sample(scs, nsc))] if cfg.get("d2_keep_transport") else sub
         for i, s_ in enumerate(sub):
             if not cfg.get("d2_keep_transport"):
